@@ -89,7 +89,7 @@ class BacklogScenario(NetScenario):
         n = 0
         for g in SCENARIOS[self.name]:
             if g == "A-requests-slow":
-                st.script.append(("A requests /slow", lambda st: st.world.emit(A, CLI, rc.encode((rc.CON, 1, 0x6001, b"\xa5", [(11, b"slow")], b"")))))
+                st.script.append(("A requests /slow", lambda st: st.world.emit(A, CLI, rc.encode((rc.CON, 1, 0x1001, b"\xa5", [(11, b"slow")], b"")))))
                 continue
             subs = []
             for (name, mt, srv) in g:
